@@ -394,7 +394,9 @@ def run(prog, rep):
     for u in [u for u in cd.units.values() if u.name in gap_units | holders]:
         rep.attempt(report_unit, rep, cd, u, rule="gap-record-symmetry")
     # .. and what a holder decodes into its record list is the list it encodes (every record, the all-missing one included)
-    for u in [u for u in cd.units.values() if u.name in holders]:
+    # .. and what a gapped record decodes into its sample arrays is what it encodes (a constructor that re-arranges what the decoder
+    # hands it - a transpose for a particular frame count - moves the NaN rows, i.e. the gaps)
+    for u in [u for u in cd.units.values() if u.name in holders | gap_units]:
         rep.attempt(attr_linkage, rep, cd, u, rule="gap-record-symmetry")
     rep.attempt(gap_reader_accepts, prog, cd, rep, gap_units)
     # 'identically on every decode of the same bytes' - also through the container: every get_block decodes from the handle, at the
